@@ -567,6 +567,10 @@ func bigInputs(thorough bool) [][]byte {
 		return []byte(`{"jsonrpc":"2.0","method":"hdr","params":["` + strings.Repeat("a", n) + `"],"id":"big"}`)
 	}
 	out := [][]byte{mk(200 << 10), mk(1 << 20), []byte(strings.Repeat(" ", 1<<20) + `{"jsonrpc":"2.0","method":"noargs","id":1}`)}
+	// round 5: MaxRequestBodySize straddled in the quick tier too — a body of exactly 10 MB is a request like any
+	// other, one byte more cuts its last byte off (blank padding: the handler sees no large argument)
+	const small = `{"jsonrpc":"2.0","method":"noargs","id":"edge"}`
+	out = append(out, []byte(strings.Repeat(" ", httpBodyLimit-len(small))+small), []byte(strings.Repeat("\n", httpBodyLimit+1-len(small))+small))
 	if thorough {
 		out = append(out, mk(9<<20), mk(11<<20), mk(20<<20))
 	}
